@@ -1,0 +1,47 @@
+package batch_schnorr
+
+import (
+	"github.com/bronlabs/errs-go/errs"
+
+	"github.com/bronlabs/bron-crypto/pkg/base/algebra"
+	"github.com/bronlabs/bron-crypto/pkg/base/serde"
+	"github.com/bronlabs/bron-crypto/pkg/base/utils"
+)
+
+// Commitment and Response are the deserialisation trust boundary of a proof: Bytes and Verify
+// dereference their group element / scalar, so a CBOR null (or a missing field) must be refused
+// while decoding. The wire format is unchanged.
+
+type commitmentDTO[G algebra.PrimeGroupElement[G, S], S algebra.PrimeFieldElement[S]] struct {
+	A G `cbor:"a"`
+}
+
+// UnmarshalCBOR deserialises a commitment and rejects a missing group element.
+func (a *Commitment[G, S]) UnmarshalCBOR(data []byte) error {
+	dto, err := serde.UnmarshalCBOR[*commitmentDTO[G, S]](data)
+	if err != nil {
+		return errs.Wrap(err).WithMessage("cannot unmarshal commitment")
+	}
+	if dto == nil || utils.IsNil(dto.A) {
+		return ErrInvalidArgument.WithMessage("commitment group element cannot be nil")
+	}
+	a.A = dto.A
+	return nil
+}
+
+type responseDTO[S algebra.PrimeFieldElement[S]] struct {
+	Z S `cbor:"z"`
+}
+
+// UnmarshalCBOR deserialises a response and rejects a missing scalar.
+func (z *Response[S]) UnmarshalCBOR(data []byte) error {
+	dto, err := serde.UnmarshalCBOR[*responseDTO[S]](data)
+	if err != nil {
+		return errs.Wrap(err).WithMessage("cannot unmarshal response")
+	}
+	if dto == nil || utils.IsNil(dto.Z) {
+		return ErrInvalidArgument.WithMessage("response scalar cannot be nil")
+	}
+	z.Z = dto.Z
+	return nil
+}
